@@ -143,6 +143,17 @@ def oracle_unchanged_rebuild(case, obs, stats):
                 p, kind, content, mt, cls = split_line(l)
                 if kind == "F" and cls != "same" and not any(l2.startswith("invoke ") and (" " + p + " ") in (l2 + " ") for l2 in log_of(obs[i])):
                     fails.append({"oracle": "second unchanged rebuild rewrites no output", "step": i, "line": l})
+            # every call invoked in an unchanged rebuild must be justified by its record: none, a failure,
+            # or a rejected attempt somewhere below it (such records are never served)
+            common.import_repo()
+            from file_builder.json_util import JsonUtil
+            for inv in stats["meta"][i]["invoked"]:
+                recs = [r for r in stats["meta"][i]["old_records"]
+                        if r["fname"] == inv["fname"] and r["target"] == inv["target"]
+                        and JsonUtil.is_equal(r["args"], inv["args"]) and JsonUtil.is_equal(r["kwargs"], inv["kwargs"])]
+                if recs and all(r["servable"] for r in recs):
+                    fails.append({"oracle": "unchanged rebuild re-runs only calls whose record is a failure or contains a rejected attempt",
+                                  "step": i, "invoked": inv})
             # bodies that ran in the second unchanged rebuild must have run (and raised or been
             # re-run because of a raise below them) in the one before
             prev_inv = [l for l in log_of(obs[i - 1]) if l.startswith("invoke ") and not l.startswith("invoke <root>")]
@@ -192,6 +203,9 @@ def execute(pid, rep, tier, workdir, make_cases, oracles, nontrivial, use_spec=T
         res.t2["disagreements"].append({"case": d["case"], "step": d.get("step"),
                                         "impl": (d["impl"][d["step"]] if d.get("step") is not None else None),
                                         "model": (d["model"][d["step"]] if d.get("step") is not None and isinstance(d.get("model"), list) else d.get("model"))})
+    for i in getattr(seq.compare, "corebad", []):
+        res.t2["disagreements"].append({"case": cases[i], "step": None, "impl": None,
+                                        "model": "Core model (Model/Core.v) disagrees with the implementation on this history"})
     sizes, opmix, errkinds = [], {}, {}
     hits = misses = 0
     for c, o, st in zip(cases, obss, stats):
